@@ -427,6 +427,31 @@ def _deepcopy(it, ctx, a, k):
     return clone(a[0])
 
 
+@op("functools.reduce")
+def _reduce(it, ctx, a, k):
+    """functools.reduce(f, iterable[, initial]) over a finite sequence: left fold (CPython semantics; empty without initial raises TypeError)"""
+    items = list(it.iterate(ctx, a[1]))
+    if len(a) > 2:
+        acc = a[2]
+    elif items:
+        acc, items = items[0], items[1:]
+    else:
+        raise PyRaise(VExc("TypeError", "reduce() of empty iterable with no initial value"))
+    for x in items:
+        acc = it.call(ctx, a[0], [acc, x], {})
+    return acc
+
+
+@op("operator.mul")
+def _opmul(it, ctx, a, k):
+    return it.binop(ctx, "*", a[0], a[1])
+
+
+@op("operator.add")
+def _opadd(it, ctx, a, k):
+    return it.binop(ctx, "+", a[0], a[1])
+
+
 @op("math.sqrt")
 def _msqrt(it, ctx, a, k):
     h = it.optable.get("real.sqrt")
